@@ -298,3 +298,33 @@ theorem earDirections_unit (lo : Quat ℝ) (h : Quat.normSq lo = 1) :
   · linear_combination (cA ^ 2) * hx + (cB ^ 2) * hz + (-2 * cA * cB) * hzx + hab
 
 end K
+
+namespace K
+
+/-! ### mirror and rigid motion -/
+
+/-- the four (dot, squared length) pairs of a mirrored emitter, for abstract axes `n ⟂ f`, `|n| = 1`:
+    `w` is emitter − listener, the mirrored `w' = w − 2(w·n)n`; the right ear sees `w'` as the
+    left ear sees `w`, and vice versa. -/
+theorem mirror_core (n f w : Vec3 ℝ) (A B e : ℝ) (hn : Vec3.dot n n = 1) (hfn : Vec3.dot f n = 0) :
+    let w' := Vec3.sub w (Vec3.scale n (2 * Vec3.dot w n))
+    let dL := Vec3.add (Vec3.scale n (-A)) (Vec3.scale f (-B))
+    let dR := Vec3.add (Vec3.scale n A) (Vec3.scale f (-B))
+    Vec3.dot dR (Vec3.sub w' (Vec3.scale n e)) = Vec3.dot dL (Vec3.add w (Vec3.scale n e))
+    ∧ Vec3.dot (Vec3.sub w' (Vec3.scale n e)) (Vec3.sub w' (Vec3.scale n e))
+        = Vec3.dot (Vec3.add w (Vec3.scale n e)) (Vec3.add w (Vec3.scale n e))
+    ∧ Vec3.dot dL (Vec3.add w' (Vec3.scale n e)) = Vec3.dot dR (Vec3.sub w (Vec3.scale n e))
+    ∧ Vec3.dot (Vec3.add w' (Vec3.scale n e)) (Vec3.add w' (Vec3.scale n e))
+        = Vec3.dot (Vec3.sub w (Vec3.scale n e)) (Vec3.sub w (Vec3.scale n e))
+    ∧ Vec3.dot w' w' = Vec3.dot w w := by
+  simp only [Vec3.dot_real, Vec3.add_x, Vec3.add_y, Vec3.add_z, Vec3.sub_x, Vec3.sub_y, Vec3.sub_z,
+    Vec3.scale_x, Vec3.scale_y, Vec3.scale_z] at *
+  set wn := w.x * n.x + w.y * n.y + w.z * n.z with hwn
+  refine ⟨?_, ?_, ?_, ?_, ?_⟩
+  · linear_combination (-2 * A * wn) * hn + (2 * B * wn + 2 * B * e) * hfn
+  · linear_combination (4 * wn ^ 2 + 4 * e * wn) * hn
+  · linear_combination (2 * A * wn) * hn + (2 * B * wn - 2 * B * e) * hfn
+  · linear_combination (4 * wn ^ 2 - 4 * e * wn) * hn
+  · linear_combination (4 * wn ^ 2) * hn
+
+end K
